@@ -79,10 +79,12 @@ def canon(results):
     return out
 
 
-def do_call(cid):
-    """run one pool call through the public API on the current thread"""
+def do_call(cid, query=None):
+    """run one pool call through the public API on the current thread (query: override, used to build the model)"""
     import recognizers_suite as rs
     _, fn, q, cul, opt, ref = POOL_BY_ID[cid]
+    if query is not None:
+        q = query
     f = getattr(rs, 'recognize_' + fn)
     if fn == 'datetime':
         from recognizers_date_time import DateTimeOptions
@@ -203,7 +205,7 @@ def counts_for(driver):
 
 
 def body(ch):
-    part = ch.pick('part', ('histories', 'cold', 'threads', 'schedules'))
+    part = ch.pick('part', ('histories', 'cold', 'threads', 'write-monitor', 'schedules'))
     table = S['table']
     if part == 'histories':
         ids = [p[0] for p in POOL]
@@ -219,6 +221,24 @@ def body(ch):
             ch.see('result_states', (cid, json.dumps(got)))
         ch.ok(case=tuple(hist), nontrivial=all(table[c] for c in hist), outcome='history|len=%d' % n, evals=len(hist),
               sample={'history': hist, 'last_result': table[hist[-1]]} if n == 3 and hist[0] == 'n3' else None)
+    elif part == 'write-monitor':
+        # any write to the long-lived state during a warm call: fingerprint of every cached model (and of the library's
+        # class-level containers reachable from it) before and after the call must be identical
+        from vmc import state
+        cid = ch.pick('call', [p[0] for p in POOL])
+        ch.shard()
+        do_call(cid, query='zz')                       # build the model with a neutral query: construction may write
+        before = state.fingerprint(state.cache_roots())
+        got = do_call(cid)
+        after = state.fingerprint(state.cache_roots())
+        d = state.diff_fingerprints(before, after)
+        ch.tally('fingerprinted_objects', len(after))
+        if d['n']:
+            mismatch(ch, 'write-monitor|%s|cached-state-written' % cid, cid, got, {'state_diff': d})
+        elif got != table[cid]:
+            mismatch(ch, 'write-monitor|%s|result' % cid, cid, got, {})
+        else:
+            ch.ok(case=('wm', cid), nontrivial=bool(table[cid]), outcome='write-monitor')
     elif part == 'cold':
         from vmc import state
         cid = ch.pick('call', [p[0] for p in POOL])
